@@ -1226,6 +1226,25 @@ static Janet os_execute_impl(int32_t argc, Janet *argv, JanetExecuteMode mode) {
         }
     }
 
+#ifndef JANET_WINDOWS
+    /* A redirection whose source is itself one of the standard descriptors (e.g. {:err stdout}) would be
+     * overwritten by an earlier dup2, or closed by the file actions below, leaving the child without that
+     * descriptor. Let the child take such a source from a close-on-exec duplicate above 2 instead. */
+    JanetHandle src_handles[3] = {new_in, new_out, new_err};
+    JanetHandle tmp_handles[3] = {JANET_HANDLE_NONE, JANET_HANDLE_NONE, JANET_HANDLE_NONE};
+    for (int i = 0; i < 3 && !pipe_errflag; i++) {
+        if (src_handles[i] < 0 || src_handles[i] > 2 || src_handles[i] == i) continue;
+        tmp_handles[i] = fcntl(src_handles[i], F_DUPFD, 3);
+        if (tmp_handles[i] < 0 || fcntl(tmp_handles[i], F_SETFD, FD_CLOEXEC)) pipe_errflag = 1;
+        src_handles[i] = tmp_handles[i];
+    }
+    if (pipe_errflag) {
+        for (int i = 0; i < 3; i++) {
+            if (tmp_handles[i] >= 0) close(tmp_handles[i]);
+        }
+    }
+#endif
+
     /* Clean up if any of the pipes have any issues */
     if (pipe_errflag) {
         if (pipe_in != JANET_HANDLE_NONE) close_handle(pipe_in);
@@ -1383,24 +1402,24 @@ static Janet os_execute_impl(int32_t argc, Janet *argv, JanetExecuteMode mode) {
         posix_spawn_file_actions_adddup2(&actions, pipe_in, 0);
         posix_spawn_file_actions_addclose(&actions, pipe_in);
     } else if (new_in != JANET_HANDLE_NONE && new_in != 0) {
-        posix_spawn_file_actions_adddup2(&actions, new_in, 0);
-        if (new_in != new_out && new_in != new_err)
-            posix_spawn_file_actions_addclose(&actions, new_in);
+        posix_spawn_file_actions_adddup2(&actions, src_handles[0], 0);
+        if (src_handles[0] != src_handles[1] && src_handles[0] != src_handles[2])
+            posix_spawn_file_actions_addclose(&actions, src_handles[0]);
     }
     if (pipe_out != JANET_HANDLE_NONE) {
         posix_spawn_file_actions_adddup2(&actions, pipe_out, 1);
         posix_spawn_file_actions_addclose(&actions, pipe_out);
     } else if (new_out != JANET_HANDLE_NONE && new_out != 1) {
-        posix_spawn_file_actions_adddup2(&actions, new_out, 1);
-        if (new_out != new_err)
-            posix_spawn_file_actions_addclose(&actions, new_out);
+        posix_spawn_file_actions_adddup2(&actions, src_handles[1], 1);
+        if (src_handles[1] != src_handles[2])
+            posix_spawn_file_actions_addclose(&actions, src_handles[1]);
     }
     if (pipe_err != JANET_HANDLE_NONE) {
         posix_spawn_file_actions_adddup2(&actions, pipe_err, 2);
         posix_spawn_file_actions_addclose(&actions, pipe_err);
     } else if (new_err != JANET_HANDLE_NONE && new_err != 2) {
-        posix_spawn_file_actions_adddup2(&actions, new_err, 2);
-        posix_spawn_file_actions_addclose(&actions, new_err);
+        posix_spawn_file_actions_adddup2(&actions, src_handles[2], 2);
+        posix_spawn_file_actions_addclose(&actions, src_handles[2]);
     } else if (stderr_is_stdout) {
         posix_spawn_file_actions_adddup2(&actions, 1, 2);
     }
@@ -1436,6 +1455,9 @@ static Janet os_execute_impl(int32_t argc, Janet *argv, JanetExecuteMode mode) {
     if (pipe_in != JANET_HANDLE_NONE) close(pipe_in);
     if (pipe_out != JANET_HANDLE_NONE) close(pipe_out);
     if (pipe_err != JANET_HANDLE_NONE) close(pipe_err);
+    for (int i = 0; i < 3; i++) {
+        if (tmp_handles[i] >= 0) close(tmp_handles[i]);
+    }
 
     if (use_environ) {
         janet_unlock_environ();
